@@ -96,6 +96,9 @@ def run(ctx, idx):
         d, r = res[name]
         divs = [x for x in r.divisions if isinstance(x[1], Arr) or isinstance(x[2], Arr)]
         con = "%s.execute::division" % d.key
+        if not divs and name == "Mean" and any(meth == "mean" for node_, sel_, meth, fk_ in r.layer_reduces):
+            ctx.hold("C07.c", con, d.module.rel, d.execute.node.lineno, "the mean is taken by a layer-axis mean over the stacked inputs (no division of its own; missing cells decided under C07.d)")
+            continue
         if not divs:
             ctx.violate("C07.c", con, d.module.rel, d.execute.node.lineno, "%s performs no array division at all" % name)
             continue
